@@ -372,4 +372,154 @@ example (k : StreamKind) (isLazy : Bool) :
     (by decide +kernel) (by decide +kernel) (by decide +kernel) 1 0
   exact ⟨o1, b1, o2, s, g1, g2, g4 _ (by decide) hview⟩
 
+/-! ### 4. relocation `get_entry` with symbol resolution (C11 ∘ C09, through C18's `TQ.runQuery`) -/
+
+/-- `get_entry(index, offset, symbolValue, symbolName, type, addend, calcValue)` composed from its two parts: the
+    relocation record `r` (`none`: no such entry) and the by-index read-out `sym` of the symbol table `sh_link`
+    names.  `calcValue` is the `switch ( type )` of the accessor (i386 relocation arithmetic, `TQ.relCalc`: generated
+    from the source), computed only when the symbol was found. -/
+def resolvedOf (r : Option Reloc.Entry) (sym : Nat → SymOut) : TQ.Resolved :=
+  match r with
+  | none => { ret := false }
+  | some e =>
+    { ret := (sym e.symbol.toNat).ret, offset := e.offset, symValue := (sym e.symbol.toNat).attrs.value,
+      symName := (sym e.symbol.toNat).name, type := e.type, addend := e.addend,
+      calcValue := if (sym e.symbol.toNat).ret then
+        TQ.relCalc e.type (sym e.symbol.toNat).attrs.value e.addend e.offset else 0 }
+
+/-- the relocation record C18's query model reads on a ready relocation section is the one of `reloc_reports_spec` -/
+theorem tq_relGet_ready (img : Bytes) (hwf : WellFormedImage img) (i : Nat) (hi : i < eh img "e_shnum") (b1 : SecBuf)
+    (hR1 : SecReady img i b1) (kind : Spec.RelKind) (hty : sh img i "sh_type" = relShType kind)
+    (hent : Spec.entSize (clsOf img) kind ≤ sh img i "sh_entsize") (k : BitVec 64) :
+    ∃ r, TQ.relGet (encOf img) b1 k = .ok r ∧ r.map Reloc.Entry.toSpec = specReloc img i kind k.toNat := by
+  have hocc : occupiesFile (sh img i "sh_type") = true := by rw [hty]; cases kind <;> decide
+  obtain ⟨hinv, hcont⟩ := hR1.inv hocc
+  have hRS : C11.RelocSec (clsOf img) kind b1 :=
+    ⟨hinv, hR1.cls, by
+      apply (stype_of_toNat _ _ (hR1.stype.trans hty)).trans
+      cases kind <;> rfl, by rw [hR1.entSize]; exact hent⟩
+  have hdata : (secData b1).isNone = false := by
+    unfold secData; rw [hR1.getData]
+    have := (hR1.resident hocc).2
+    cases hd : b1.data <;> simp_all
+  by_cases hk : k.toNat < sh img i "sh_size" / sh img i "sh_entsize"
+  · obtain ⟨e, he, hs⟩ := C11.get_refines (clsOf img) kind (encOf img) b1 hRS k (by rw [hR1.size, hR1.entSize]; exact hk)
+    rw [hR1.getData] at he
+    refine ⟨some e, tq_relGet_eq (clsOf img) kind (encOf img) b1 b1 _ hRS hdata k he, ?_⟩
+    simp only [Option.map_some, specReloc, hk, if_true, hs, hcont, hR1.entSize]
+  · refine ⟨none, tq_relGet_eq (clsOf img) kind (encOf img) b1 b1 _ hRS hdata k
+      (C11.get_invalid (encOf img) b1 k (by rw [hR1.size, hR1.entSize]; omega)), ?_⟩
+    simp only [Option.map_none, specReloc, hk, if_false]
+
+/-- **reloc_resolved_reports_spec** : for a relocation section `i` as in `reloc_reports_spec` (SHT_REL / SHT_RELA,
+    `sizeof(Rel/Rela) ≤ sh_entsize`) whose `(Elf_Half) sh_link` names a symbol table of the file as in
+    `symbols_reports_spec` (occupies file space, entry size `sizeof(ElfN_Sym)`, its own `sh_link` names nothing or a
+    file-occupying section), `get_entry(k, offset, symbolValue, symbolName, type, addend, calcValue)` on the loaded
+    object is, for EVERY 64-bit `k`, the composition of the two read-outs: the relocation record `specReloc img i k`
+    of `reloc_reports_spec` (false with all out-parameters untouched when there is none), and value and name of the
+    symbol `specSymbol img (linkIdx img i) r_sym` of `symbols_reports_spec` — a symbol index beyond the table gives
+    false with offset / type / addend set and symbol value / name / calcValue untouched. -/
+theorem reloc_resolved_reports_spec (img : Bytes) (hwf : WellFormedImage img) (o : Obj) (hL : LoadedFrom img o)
+    (i : Nat) (hi : i < eh img "e_shnum") (kind : Spec.RelKind) (hty : sh img i "sh_type" = relShType kind)
+    (hent : Spec.entSize (clsOf img) kind ≤ sh img i "sh_entsize")
+    (hs : linkIdx img i < eh img "e_shnum") (hsocc : occupiesFile (sh img (linkIdx img i) "sh_type") = true)
+    (hsent : sh img (linkIdx img i) "sh_entsize" = Spec.symSize (clsOf img)) (hslink : LinkOk img (linkIdx img i))
+    (k : BitVec 64) :
+    ∃ o2 r, TQ.runQuery o (.relGetResolved i k) =
+        .ok (o2, .resolved (resolvedOf r (specSymbol img (linkIdx img i)))) ∧
+      LoadedFrom img o2 ∧ o2.segs = o.segs ∧ r.map Reloc.Entry.toSpec = specReloc img i kind k.toNat := by
+  obtain ⟨o1, b1, h1, hL1, hR1, _, _, hseg1, _⟩ := secResident_ready img hwf o hL i hi
+  have h1' : TQ.settle o i = some (o1, b1) := h1
+  obtain ⟨r, hr, hspec⟩ := tq_relGet_ready img hwf i hi b1 hR1 kind hty hent k
+  have hidx : TQ.relSymtabIndex b1 = linkIdx img i := by
+    unfold TQ.relSymtabIndex tq_reloc_symtab_index linkIdx
+    rw [← hR1.link]
+    simp only [BitVec.toNat_setWidth, Nat.reducePow]
+  obtain ⟨o2, t, h2, hL2, hseg2, hcfg, hW, _⟩ := symTabFor_wf img hwf o1 hL1 (linkIdx img i) hs hsocc hsent hslink
+  refine ⟨o2, r, ?_, hL2, hseg2.trans hseg1, hspec⟩
+  have hres : TQ.relGetResolved (encOf img) b1 (some t) k =
+      .ok (resolvedOf r (specSymbol img (linkIdx img i))) := by
+    unfold TQ.relGetResolved TQ.relGetResolvedWith
+    rw [hr]
+    cases r with
+    | none => rfl
+    | some e =>
+      have hg := SymTab.getSymbol_decoded hW (tq_reloc_sym_index e.symbol) [] {}
+      have hn : (tq_reloc_sym_index e.symbol).toNat = e.symbol.toNat := by
+        simp only [tq_reloc_sym_index, BitVec.toNat_setWidth, Nat.reducePow]
+        have := e.symbol.isLt
+        simp only [Nat.reducePow] at this
+        omega
+      rw [hcfg, hn] at hg
+      simp only [Option.getD_some, Option.isNone_some, Bool.false_eq_true, if_false, hg, resolvedOf, specSymbol,
+        tq_reloc_ret_and, tq_reloc_calc_gate, Bool.true_and]
+      by_cases hk : e.symbol.toNat < SymTab.countOf (clsOf img) (secFileBytes img (linkIdx img i))
+      · simp only [hk, if_true]; rfl
+      · simp only [hk, if_false]; rfl
+  simp only [TQ.runQuery, h1', hidx, h2, hL.enc, hres, TQ.liftQ]; rfl
+
+/-- **reloc_resolved_nosymtab** : when `(Elf_Half) sh_link` of the relocation section names no section of the file,
+    the resolving `get_entry` returns false for EVERY `k` (fixes/10: no symbol accessor is built on the null section),
+    having set offset / type / addend from the record `specReloc img i k` (zeros when there is none). -/
+theorem reloc_resolved_nosymtab (img : Bytes) (hwf : WellFormedImage img) (o : Obj) (hL : LoadedFrom img o)
+    (i : Nat) (hi : i < eh img "e_shnum") (kind : Spec.RelKind) (hty : sh img i "sh_type" = relShType kind)
+    (hent : Spec.entSize (clsOf img) kind ≤ sh img i "sh_entsize")
+    (hs : eh img "e_shnum" ≤ linkIdx img i) (k : BitVec 64) :
+    ∃ (o1 : Obj) (r : Option Reloc.Entry), TQ.runQuery o (.relGetResolved i k) =
+        .ok (o1, .resolved { ret := false, offset := (r.getD ⟨0, 0, 0, 0⟩).offset, type := (r.getD ⟨0, 0, 0, 0⟩).type,
+                             addend := (r.getD ⟨0, 0, 0, 0⟩).addend }) ∧
+      LoadedFrom img o1 ∧ o1.segs = o.segs ∧ r.map Reloc.Entry.toSpec = specReloc img i kind k.toNat := by
+  obtain ⟨o1, b1, h1, hL1, hR1, _, _, hseg1, _⟩ := secResident_ready img hwf o hL i hi
+  have h1' : TQ.settle o i = some (o1, b1) := h1
+  obtain ⟨r, hr, hspec⟩ := tq_relGet_ready img hwf i hi b1 hR1 kind hty hent k
+  have hidx : TQ.relSymtabIndex b1 = linkIdx img i := by
+    unfold TQ.relSymtabIndex tq_reloc_symtab_index linkIdx
+    rw [← hR1.link]
+    simp only [BitVec.toNat_setWidth, Nat.reducePow]
+  have hnone : TQ.symTabFor o1 (linkIdx img i) = none := by
+    unfold TQ.symTabFor
+    have : TQ.settle o1 (linkIdx img i) = none := secResident_none img o1 hL1 _ hs
+    rw [this]
+  refine ⟨o1, r, ?_, hL1, hseg1, hspec⟩
+  simp only [TQ.runQuery, h1', hidx, hnone, hL.enc, TQ.relGetResolved, TQ.relGetResolvedWith, hr, tq_reloc_nosymtab,
+    if_true, TQ.liftQ, tq_reloc_symbol_init]
+  rfl
+
+example (k : StreamKind) (isLazy : Bool) :
+    ∃ r : LoadRes, load {} { data := exImg2, kind := k } isLazy = .ok r ∧
+      ∀ idx : BitVec 64, ∃ o1 e, TQ.runQuery r.obj (.relGetResolved 4 idx) =
+          .ok (o1, .resolved (resolvedOf e (specSymbol exImg2 2))) ∧
+        e.map Reloc.Entry.toSpec = specReloc exImg2 4 .rel idx.toNat := by
+  obtain ⟨r, h1, _, h3⟩ := of_load exImg2 {} k isLazy rfl exImg2_wf
+  refine ⟨r, h1, fun idx => ?_⟩
+  have hl : linkIdx exImg2 4 = 2 := by decide +kernel
+  obtain ⟨o1, e, g1, _, _, g2⟩ := reloc_resolved_reports_spec exImg2 exImg2_wf r.obj h3 4 (by decide +kernel) .rel
+    (by decide +kernel) (by decide +kernel) (by decide +kernel) (by decide +kernel) (by decide +kernel)
+    (by decide +kernel) idx
+  rw [hl] at g1
+  exact ⟨o1, e, g1, g2⟩
+/-- entry 1 relocates against "bar" (R_386_PC32: calcValue = S + A - P); entry 2 names symbol 7, which the table does
+    not have: false, offset and type set, the rest untouched -/
+example : specReloc exImg2 4 .rel 1 = some ⟨0x20, 2, 2, 0⟩ ∧ specReloc exImg2 4 .rel 2 = some ⟨0x30, 7, 1, 0⟩ ∧
+    resolvedOf (some ⟨0x20, 2, 2, 0⟩) (specSymbol exImg2 2) =
+      { ret := true, offset := 0x20, symValue := 0x2000, symName := [0x62, 0x61, 0x72], type := 2, addend := 0,
+        calcValue := 0x1fe0 } ∧
+    resolvedOf (some ⟨0x30, 7, 1, 0⟩) (specSymbol exImg2 2) = { ret := false, offset := 0x30, type := 1 } ∧
+    resolvedOf none (specSymbol exImg2 2) = { ret := false } := by decide +kernel
+/-- the second example image with `sh_link` of `.rel.x` changed to 200: no such section -/
+def exImg3 : Bytes := exImg2.set 536 200
+theorem exImg3_wf : WellFormedImage exImg3 := by decide +kernel
+example : linkIdx exImg2 4 = 2 ∧ linkIdx exImg3 4 = 200 ∧ eh exImg3 "e_shnum" = 9 := by decide +kernel
+example (k : StreamKind) (isLazy : Bool) :
+    ∃ r : LoadRes, load {} { data := exImg3, kind := k } isLazy = .ok r ∧
+      ∀ idx : BitVec 64, ∃ (o1 : Obj) (e : Option Reloc.Entry), TQ.runQuery r.obj (.relGetResolved 4 idx) =
+          .ok (o1, .resolved { ret := false, offset := (e.getD ⟨0, 0, 0, 0⟩).offset, type := (e.getD ⟨0, 0, 0, 0⟩).type,
+                               addend := (e.getD ⟨0, 0, 0, 0⟩).addend }) ∧
+        e.map Reloc.Entry.toSpec = specReloc exImg3 4 .rel idx.toNat := by
+  obtain ⟨r, h1, _, h3⟩ := of_load exImg3 {} k isLazy rfl exImg3_wf
+  refine ⟨r, h1, fun idx => ?_⟩
+  obtain ⟨o1, e, g1, _, _, g2⟩ := reloc_resolved_nosymtab exImg3 exImg3_wf r.obj h3 4 (by decide +kernel) .rel
+    (by decide +kernel) (by decide +kernel) (by decide +kernel) idx
+  exact ⟨o1, e, g1, g2⟩
+
 end ElfioVerif.ComposeTables
